@@ -60,4 +60,12 @@ theorem numeric_cell_head (cell : Cell) (hnum : ∀ s, cell ≠ .label s) :
       exact ⟨c, t ++ '.' :: padDigits k fp, by simp [renderCell, signStr, h1], Or.inl h2⟩
 
 
+theorem mapM_map_ok {α β γ : Type} (f : β → Except Err γ) (g : α → β) (hh : α → γ) :
+    ∀ (l : List α), (∀ x ∈ l, f (g x) = .ok (hh x)) → (l.map g).mapM f = .ok (l.map hh)
+  | [], _ => rfl
+  | a :: l, h => by
+    have h1 := h a (by simp)
+    have ih := mapM_map_ok f g hh l (fun x hx => h x (by simp [hx]))
+    simp only [List.map_cons, List.mapM_cons, h1, ih, bind, Except.bind, pure, Except.pure]
+
 end Pharmpy.C20
